@@ -79,7 +79,7 @@ def cases(draw):
     )
     seed_pts = draw(st.lists(pts, min_size=1, max_size=5))
     ops = [["insert_multiple", seed_pts, 0, "asis", "db", None, "m1"]] + draw(st.lists(setup_one, max_size=4)) + [draw(target)]
-    return {"ops": ops, "auto_index": draw(st.booleans()), "reads": draw(st.lists(st.integers(0, len(READ_Q) - 1), min_size=2, max_size=4)), "after_insert": draw(pts), "after_rewrite": draw(st.integers(0, len(REWRITES) - 1)), "pick": draw(st.integers(0, 10**6))}
+    return {"ops": ops, "auto_index": draw(st.booleans()), "reads": draw(st.lists(st.integers(0, len(READ_Q) - 1), min_size=2, max_size=4)), "after_insert": draw(pts), "after_rewrite": draw(st.integers(0, len(REWRITES) - 1)), "pick": draw(st.integers(0, 10**6)), "prime": draw(st.booleans())}
 
 
 class _R:
@@ -167,6 +167,14 @@ def plan(op, m):
     return fn, after, states
 
 
+def prime_reads(db):
+    """Reads issued right before the operation under test (anything cached from them must not survive the faulted operation)."""
+    try:
+        len(db), db.count(qast.build(READ_Q[0])), db.get_timestamps(), db.get_measurements(), len(db.measurement("m1")), db.get_field_keys()
+    except Exception:
+        pass
+
+
 def decode_file(path):
     with open(path, "rb") as f:
         data = f.read()
@@ -188,6 +196,8 @@ def record(case, ctx):
                 for i, op in enumerate(case["ops"]):
                     fn, after, _ = plan(op, m)
                     if i == len(case["ops"]) - 1:
+                        if case.get("prime"):
+                            prime_reads(db)
                         s0 = len(w.events)
                     fn(db)
                     m = after
@@ -298,6 +308,8 @@ def run_fault(case, k, when, events, s0, ctx, acc):
                     fn, after, _ = plan(op, m)
                     fn(db)
                     m = after
+                if case.get("prime"):
+                    prime_reads(db)
                 if len(w.events) != s0:
                     raise core.HarnessError("replay diverged from the recording: %d steps before the operation under test, recorded %d" % (len(w.events), s0))
                 fn, after, states = plan(case["ops"][-1], m)
@@ -435,7 +447,7 @@ def run_shard(spec, ctx):
 
 def minimize(v, ctx, budget=40):
     """Drop setup operations while the same kind of failure remains (any fault position)."""
-    base = {k: v.case[k] for k in ("ops", "auto_index", "reads", "after_insert", "after_rewrite", "pick") if k in v.case}
+    base = {k: v.case[k] for k in ("ops", "auto_index", "reads", "after_insert", "after_rewrite", "pick", "prime") if k in v.case}
     ops = list(base["ops"])
     best = v
     i = 0
@@ -457,7 +469,7 @@ def minimize(v, ctx, budget=40):
 
 
 def replay(sub, case, ctx):
-    base = {k: case[k] for k in ("ops", "auto_index", "reads", "after_insert", "after_rewrite", "pick") if k in case}
+    base = {k: case[k] for k in ("ops", "auto_index", "reads", "after_insert", "after_rewrite", "pick", "prime") if k in case}
     if "fault_step" in case:
         events, s0, s1 = record(base, ctx)
         k = case["fault_step"]
